@@ -12,6 +12,7 @@
 package main
 
 import (
+	"fmt"
 	"sort"
 	"strings"
 
@@ -29,6 +30,11 @@ import (
 
 var harnesses []core.PkgHarness
 
+// forkHarnesses: the fork checks (core/fork.go) of the program-valued monads. They run in batches
+// APPENDED after the classic ones, so that the PRNG streams of the classic batches stay what they
+// were.
+var forkHarnesses []core.PkgHarness
+
 func init() {
 	tryChecks, tryProgram, tryExtra := htry.Parts()
 	harnesses = []core.PkgHarness{
@@ -39,6 +45,9 @@ func init() {
 	}
 	harnesses = append(harnesses, hcoll.Harnesses()...)
 	harnesses = append(harnesses, hsmall.Harnesses()...)
+	forkHarnesses = append(forkHarnesses, hsmall.ForkHarnesses()...)
+	forkHarnesses = append(forkHarnesses, hstatet.ForkHarness())
+	forkHarnesses = append(forkHarnesses, hcoll.ForkHarnesses()...)
 	// the law / definition checks again at the nil-able element types (helem)
 	for i := range harnesses {
 		harnesses[i].Checks = core.Concat(harnesses[i].Checks, helem.For(harnesses[i].Prof.Pkg))
@@ -54,8 +63,43 @@ func batchesPerPkg(tier string) int {
 	return 4
 }
 
+func classicBatches(tier string) int { return len(harnesses) * batchesPerPkg(tier) }
+
+// forkRounds: fork batches per package; every batch visits every number of pending steps 0..40
+// forkVisits times. statet has 62 arm kinds (the others 6..21) and gets twice the batches.
+func forkRounds(tier string) int {
+	if tier == "thorough" {
+		return 8
+	}
+	return 1
+}
+
+type forkBatch struct{ h, round int }
+
+func forkPlan(tier string) []forkBatch {
+	var out []forkBatch
+	for r := 0; r < 2*forkRounds(tier); r++ {
+		for i, h := range forkHarnesses {
+			if r < forkRounds(tier) || h.Prof.Pkg == "statet" {
+				out = append(out, forkBatch{i, r})
+			}
+		}
+	}
+	return out
+}
+
+func forkVisits(tier string) int {
+	if tier == "thorough" {
+		return 96
+	}
+	return 32
+}
+
 // casesPerBatch: every slot of the package is visited at least 12 times per batch.
 func casesPerBatch(tier string, b int) int {
+	if b >= classicBatches(tier) {
+		return (core.ForkMaxPending + 1) * forkVisits(tier)
+	}
 	n := 4000
 	if tier == "thorough" {
 		n = 12000
@@ -67,6 +111,16 @@ func casesPerBatch(tier string, b int) int {
 }
 
 func run(w *vrt.W) {
+	if fb := w.Batch - classicBatches(w.Tier); fb >= 0 {
+		pl := forkPlan(w.Tier)[fb]
+		h := &forkHarnesses[pl.h]
+		n := casesPerBatch(w.Tier, w.Batch)
+		for i := w.From; i < w.To; i++ {
+			// rot: the visit number; rot mod 41 = pending steps of the base, rot / 41 rotates the arm kinds
+			core.RunCheck(w, i, h.Prof, h.Checks[0], pl.round*n+i)
+		}
+		return
+	}
 	h := &harnesses[w.Batch%len(harnesses)]
 	round := w.Batch / len(harnesses)
 	n := h.Slots()
@@ -104,6 +158,31 @@ func floors(tier string) map[string]int64 {
 			fl["elem.nil-function-result."+h.Prof.Pkg+"."+t] = 10
 		}
 	}
+	// forks: every number of pending steps 0..40 for every program-valued monad, every arm kind,
+	// arms really observed more than once, laws on independently built bases
+	for _, h := range forkHarnesses {
+		p := h.Prof.Pkg
+		fl["hit."+h.Checks[0].Name] = 1000
+		for _, e := range h.Extra {
+			fl["hit."+e] = 20
+		}
+		for k := 0; k <= core.ForkMaxPending; k++ {
+			fl[fmt.Sprintf("fork.pending.%s.%02d", p, k)] = 16
+		}
+		fl["fork.cases."+p] = 1000
+		fl["fork.arms."+p] = 3000
+		fl["fork.arm-observations."+p] = 6000
+		fl["fork.cases-with-three-or-more-arms."+p] = 300
+		if p != "iterator" { // iterator arms are thunks over a shared function / source
+			fl["fork.second-level."+p] = 200
+		}
+		fl["fork.laws-on-independent-constructions."+p] = 6000
+	}
+	fl["fork.interleaved-walks.list"] = 1000
+	fl["fork.interleaved-walks.iterator"] = 1000
+	fl["fork.base-nonempty.list"] = 600
+	fl["fork.base-longer-than-one.list"] = 400
+	fl["fork.base-nonempty.iterator"] = 600
 	// kept results that are non-empty slices and differ between the runs of one program value (the
 	// situation in which a buffer shared between runs is visible)
 	fl["rerun.reinspected-nonempty-slices.statet"] = 500
@@ -121,11 +200,11 @@ func floors(tier string) map[string]int64 {
 func main() {
 	vrt.Main(vrt.Config{
 		Property: "C01",
-		Batches:  func(tier string) int { return len(harnesses) * batchesPerPkg(tier) },
+		Batches:  func(tier string) int { return classicBatches(tier) + len(forkPlan(tier)) },
 		Cases:    casesPerBatch,
 		Run:      run,
 		Floors:   floors,
-		Rule:     "batch b exercises one of the 10 packages (b mod 10). Case i runs the check selected by i alone: one exported combinator of the package (every arity 2..9 of the arity-indexed families through generated call sites, every method of every ApplicativeFunctorK/MonadChainK), or - one slot in five - a random expression program (depth <=4 quick / <=6 thorough, bound variables, <=14*depth nodes) over the combinator palette, interpreted by the library and by the reference. Operands come from w.Rand(i): every constructor (Some/None/zero Option, Success/Failure(err1..4), Right/Left(l1..3), StateT pure / state-changing / always-failing / failing for part of the states, nil/empty/singleton/longer sequences, lists as Seq/cons/lazy, iterators from Seq/Of/List/ReverseSeq/Empty, Eval from Done/Call/TailCall), functions from parametrised total palettes including ones failing / returning empty for part of their domain; failure placement per case: none, exactly one operand, or independent 35 %. Oracle: (a) plain-Go reference (state -> (value, failure index, state) for Option/Try/Either/StateT observed at 1 resp. 4 probe states, the list monad on []int, the strict value for Eval, Go functions on 8 probe arguments for fn1), error identity = pointer identity of the injected sentinels; (b) for Map everywhere, and for the Iterator combinators that share a single-use operand by design, the definition written with the package's own FlatMap and unit on fresh identical operands. Re-run and persistence (core/rerun.go): every program-valued result is executed several times - a StateT from the probe states 0,1,2,7 and then again from 7,2,1,0; an fn1 reader on its 8 probe arguments twice; an fn0 value three times; an Eval by Get, Run, Get; a lazy List is walked twice; an Iterator-producing call is made twice on identically rebuilt operands - and every combinator of a value monad whose result contains a slice (Traverse*, Sequence*, MapSeqLift, FlatMapTraverse*, the try SeqT functions, everything in seq) is called twice on the very same operands. Each result is snapshotted at once (the first pass is what the reference is compared with), a repeated run must equal the first run from the same input (key <check>/rerun-differs-from-first-run), and all results are kept AS RETURNED (slices, Seq, maps are not copied) and read again after all later runs (key <check>/earlier-result-changed-by-rerun). Element types (helem, core/elem.go): the unit, the three laws, Map (+ its FlatMap definition), Flatten, Ap, Flap, Zip, Replace, Map2, With, Method1, TraverseSeq and Sequence of option/try/either/statet, unit/laws/Map/Flatten/Ap/Map2/Flap of seq/list/iterator and unit/laws/Map/Map2/Flatten of lazy/fn0/fn1 are instantiated again at *int, []int, map[int]int, func(int) int, any (incl. a typed nil pointer in a non-nil interface) and error (check names carry the tag, e.g. option.Map[ptr]); palettes of 4-5 values with nil first, functions are tables over the palette, and every such case runs with the palette rotated through all positions so that nil reaches the unit argument, the function result and the operand value in every visit; a unit that does not return a success carrying exactly its argument is keyed <pkg>.<unit>/unit-not-total. Every case is counted; distinct_nontrivial = number of distinct (combinator, tuple of operand shapes) pairs (operand shape = constructor variant + success/failure class, sequence shape; for programs the whole expression).",
+		Rule:     "classic batch b exercises one of the 10 packages (b mod 10). Case i runs the check selected by i alone: one exported combinator of the package (every arity 2..9 of the arity-indexed families through generated call sites, every method of every ApplicativeFunctorK/MonadChainK), or - one slot in five - a random expression program (depth <=4 quick / <=6 thorough, bound variables, <=14*depth nodes) over the combinator palette, interpreted by the library and by the reference. Operands come from w.Rand(i): every constructor (Some/None/zero Option, Success/Failure(err1..4), Right/Left(l1..3), StateT pure / state-changing / always-failing / failing for part of the states, nil/empty/singleton/longer sequences, lists as Seq/cons/lazy, iterators from Seq/Of/List/ReverseSeq/Empty, Eval from Done/Call/TailCall), functions from parametrised total palettes including ones failing / returning empty for part of their domain; failure placement per case: none, exactly one operand, or independent 35 %. Oracle: (a) plain-Go reference (state -> (value, failure index, state) for Option/Try/Either/StateT observed at 1 resp. 4 probe states, the list monad on []int, the strict value for Eval, Go functions on 8 probe arguments for fn1), error identity = pointer identity of the injected sentinels; (b) for Map everywhere, and for the Iterator combinators that share a single-use operand by design, the definition written with the package's own FlatMap and unit on fresh identical operands. Re-run and persistence (core/rerun.go): every program-valued result is executed several times - a StateT from the probe states 0,1,2,7 and then again from 7,2,1,0; an fn1 reader on its 8 probe arguments twice; an fn0 value three times; an Eval by Get, Run, Get; a lazy List is walked twice; an Iterator-producing call is made twice on identically rebuilt operands - and every combinator of a value monad whose result contains a slice (Traverse*, Sequence*, MapSeqLift, FlatMapTraverse*, the try SeqT functions, everything in seq) is called twice on the very same operands. Each result is snapshotted at once (the first pass is what the reference is compared with), a repeated run must equal the first run from the same input (key <check>/rerun-differs-from-first-run), and all results are kept AS RETURNED (slices, Seq, maps are not copied) and read again after all later runs (key <check>/earlier-result-changed-by-rerun). Element types (helem, core/elem.go): the unit, the three laws, Map (+ its FlatMap definition), Flatten, Ap, Flap, Zip, Replace, Map2, With, Method1, TraverseSeq and Sequence of option/try/either/statet, unit/laws/Map/Flatten/Ap/Map2/Flap of seq/list/iterator and unit/laws/Map/Map2/Flatten of lazy/fn0/fn1 are instantiated again at *int, []int, map[int]int, func(int) int, any (incl. a typed nil pointer in a non-nil interface) and error (check names carry the tag, e.g. option.Map[ptr]); palettes of 4-5 values with nil first, functions are tables over the palette, and every such case runs with the palette rotated through all positions so that nil reaches the unit argument, the function result and the operand value in every visit; a unit that does not return a success carrying exactly its argument is keyed <pkg>.<unit>/unit-not-total. FORKS (core/fork.go; batches appended after the classic ones, one package per batch: lazy, fn0, fn1, statet, list, iterator): case i of a fork batch builds ONE base value m that already carries k = i mod 41 pending steps (k = 0..40, every value equally often; lazy: Done/Call/TailCall* extended by k Eval.FlatMap / Eval.Map / lazy.FlatMap / lazy.Map steps; statet: k FlatMap / Map / FlatMapConst / Map2 / MapWithState steps; fn0, fn1: k Map / FlatMap steps; list: a Seq-backed / cons / lazy list extended by k list.Map / FlatMap / FilterMap / Map2 steps; iterator: an Iterator-producing function made of k nested iterator.Compose / ComposePure calls, and the lazy list as a persistent source of Iterators), derives 2..5 continuations with DIFFERENT functions from that one m through the binding combinators of the package (the arm kinds rotate with i div 41 so that every kind meets every k; kinds and operand positions are listed under coverage.forks.<pkg>.arms_by_combinator_and_position: FlatMap, Map, Map2 first / second / both operands, Ap function / argument operand, ApFunc, Flatten, Zip, Zip3, Replace, FlatMapConst, Concat, MapWithState, MapT, Lift*, FlatMap2, Flap, FlapMap, Method1, FlatMethod1, With, UnZip, Sequence, TraverseSeq, Compose, PeekState, m used inside a continuation, TailCall returning m, m itself), in half of the cases two more continuations from the first arm, keeps all of them, and only then observes every arm 2..3 times in PRNG order with the observers above (list cells / Iterators of all arms are first walked interleaved, one or two elements of one arm at a time). Every observation must equal the plain-Go model and the same continuation bound to an INDEPENDENTLY constructed base (the constructor run again on the same descriptors); an arm that is wrong while its twin is right is keyed <pkg>.<Combinator>/forked-value-disturbed, a wrong twin <pkg>.<Combinator>/differs-from-reference. The same cases check left identity (with a Kleisli arrow that carries the k pending steps), right identity and associativity on such bases with the left side built from one construction of m and the right side from another one (keys <pkg>.FlatMap/<law>). Every case is counted; distinct_nontrivial = number of distinct (combinator, tuple of operand shapes) pairs (operand shape = constructor variant + success/failure class, sequence shape; for programs the whole expression).",
 		Assumptions: []string{
 			"callbacks handed to the library are pure and total; effects order is observed through which failure / which state results, callback invocation order itself is C02",
 			"element types are int (and nested containers / curried functions of int) for every combinator and arity; the law / definition checks of the unit-dependent core (unit, laws, Map, Flatten, Ap, Flap, Zip, Replace, Map2, With, Method1, TraverseSeq, Sequence) are repeated at six nil-able element types; the arity-indexed families and the builders are exercised at int only",
@@ -134,6 +213,7 @@ func main() {
 			"the uninitialised fp.Try[T]{} is not an input; Option[T]{} is",
 			"StateT values are observed at the probe states 0,1,2,7; fn1 readers at 8 probe arguments",
 			"seq/list/iterator Zip/Zip3 are positional zips, not monadic products, and are left to C12",
+			"forks: 2..7 continuations per base, at most two levels (base -> arm -> arm); the base carries 0..40 pending steps, every number equally often; an Iterator value itself is single-use and is never forked, only the functions and persistent sources that produce Iterators are",
 			"operands are PRNG-sampled, not exhaustive",
 		},
 		Finish: func(tier string, m *vrt.Merged, cov map[string]any) {
@@ -163,6 +243,35 @@ func main() {
 				}
 			}
 			cov["rerun"] = rerun
+			// forks: per package the cases per number of pending steps (0..40) and the totals
+			forks := map[string]any{}
+			for _, h := range forkHarnesses {
+				p := h.Prof.Pkg
+				per := make([]int64, core.ForkMaxPending+1)
+				for k := range per {
+					per[k] = m.Counters[fmt.Sprintf("fork.pending.%s.%02d", p, k)]
+				}
+				t := map[string]any{"cases_per_number_of_pending_steps_0_to_40": per}
+				for k, v := range m.Counters {
+					if strings.HasPrefix(k, "fork.") && strings.HasSuffix(k, "."+p) {
+						t[strings.TrimSuffix(strings.TrimPrefix(k, "fork."), "."+p)] = v
+					}
+				}
+				arms := map[string]int64{}
+				for _, e := range h.Extra {
+					arms[strings.TrimPrefix(e, "fork:")] = m.Counters["hit."+e]
+				}
+				t["arms_by_combinator_and_position"] = arms
+				forks[p] = t
+			}
+			cov["forks"] = forks
+			if cs, ok := cov["counters"].(map[string]int64); ok {
+				for k := range cs {
+					if strings.HasPrefix(k, "fork.pending.") {
+						delete(cs, k)
+					}
+				}
+			}
 			cov["element_types"] = elem
 			cases := map[string]int64{}
 			progs := map[string]int64{}
